@@ -1,6 +1,6 @@
 (* Props_C20.v — C20: correlated-k reduces to cross-sections when the k-distribution is degenerate. *)
 From Coq Require Import Reals List Lra.
-From TV Require Import Num ListNum ListNumR Model_C01 Proofs_C01 Model_C20 Proofs_C20.
+From TV Require Import Num ListNum ListNumR Model_C01 Proofs_C01 Model_C20 Proofs_C20 Model_C02 Proofs_C02k.
 Import ListNotations.
 Local Open Scope R_scope.
 
@@ -39,3 +39,13 @@ Theorem C20_trans_is_weighted_exponential : forall sigma ws rho path l w,
   = @ktrans R RTNum ws (map (@ktau_g R RTNum sigma rho path l w) (seq 0 (length ws))).
 Proof. exact exp_neg_ktau. Qed.
 Print Assumptions C20_trans_is_weighted_exponential.
+
+(* (d) emission: with the same depth xs_l at every quadrature point of layer l, the correlated-k intensity is the
+   cross-section intensity (un-clamped) of the summed vertical depths *)
+Theorem C20_degenerate_emission : forall (B d xs : list R) (kd : list (list R)) (ws : list R) (m : R),
+  (0 < length d)%nat -> length kd = length d -> length xs = length d ->
+  Forall (fun x => 0 <= x) ws -> Rsum ws = 1 ->
+  (forall g, (g < length ws)%nat -> @kcol R RTNum kd g = xs) ->
+  @kintensity R RTNum B d kd ws m = @intensity R RTNum B (map2 Rplus d xs) [] [] m.
+Proof. exact k_degenerate_intensity. Qed.
+Print Assumptions C20_degenerate_emission.
